@@ -877,132 +877,239 @@ class _Options(dict):
     pass
 
 
-def end_to_end(ctx, scratch):
+E2E_BASENAMES = ["Makefile", "README", "__init__.py", "a.txt", "b.txt"]
+E2E_DIRS = ["", "src/", "src/lib/", "docs/", "src/docs/", "src/lib/deep/"]
+
+
+def e2e_story():
+    """A project tree whose files share basenames across levels; between backups only ONE file changes, mostly the
+    shallower one of two namesakes (the directory above it must then be re-created, not re-used)."""
+    def w(rel, text):
+        return {"write": rel, "data": text.encode().hex()}
+    bk = {"backup": {"dt": 60, "rnd": 0, "ignore_ts": False}}
+    return [w("Makefile", "all: v1"), w("README", "top v1"), w("src/Makefile", "src v1"), w("src/main.c", "int main;"),
+            w("src/lib/Makefile", "lib v1"), w("src/lib/util.c", "util"), w("docs/README", "docs v1"), w("docs/guide/README", "guide v1"), bk,
+            bk,
+            w("Makefile", "all: v2"), bk,
+            w("docs/README", "docs v2"), bk,
+            w("src/Makefile", "src v2 longer"), bk,
+            w("src/lib/README", "new file"), bk,
+            w("src/README", "shallower namesake created"), bk,
+            {"delete": "src/README"}, bk,
+            {"delete": "Makefile"}, bk,
+            w("Makefile", "all: v3 back again"), w("src/lib/Makefile", "lib v2 changed too"), bk]
+
+
+def e2e_random_script(r):
+    script = []
+    disk = {}
+
+    def rel():
+        return r.choice(E2E_DIRS) + r.choice(E2E_BASENAMES)
+
+    def data():
+        return bytes(r.getrandbits(8) for _ in range(r.choice([0, 3, 40]))).hex()
+
+    for _ in range(r.choice([4, 7, 10])):
+        p = rel()
+        disk[p] = True
+        script.append({"write": p, "data": data()})
+    for run_no in range(r.choice([3, 4, 6])):
+        if run_no:
+            paths = sorted(disk)
+            # files that have a namesake deeper below their own directory
+            shadowed = [p for p in paths if any(q != p and q.startswith(os.path.dirname(p) + "/" if os.path.dirname(p) else "") and
+                                                os.path.basename(q) == os.path.basename(p) and q.count("/") > p.count("/") for q in paths)]
+            nchanges = r.choice([1, 1, 1, 2, 4])
+            for _ in range(nchanges):
+                k = r.random()
+                if k < 0.55 and paths:
+                    p = r.choice(shadowed) if shadowed and r.random() < 0.7 else r.choice(paths)
+                    script.append({"write": p, "data": data() + "%02x" % (run_no + 1)})
+                elif k < 0.75:
+                    p = rel()
+                    disk[p] = True
+                    script.append({"write": p, "data": data()})
+                elif k < 0.9 and len(paths) > 1:
+                    p = r.choice(shadowed) if shadowed and r.random() < 0.5 else r.choice(paths)
+                    if p in disk:
+                        del disk[p]
+                        script.append({"delete": p})
+                elif paths:
+                    p = r.choice(paths)
+                    q = rel()
+                    if p in disk and q not in disk:
+                        del disk[p]
+                        disk[q] = True
+                        script.append({"rename": [p, q]})
+        script.append({"backup": {"dt": r.choice([60, DAY, MONTH + 5, 2 * MONTH + 5]), "rnd": r.choice(RNDS), "ignore_ts": r.random() < 0.1}})
+    return script
+
+
+def run_e2e_script(ctx, script, order, root, dbpath, label):
+    """The real collect_backup_targets / run_backup / BackerUpper.upload / upload_directory / BackupProgress over a real
+    tree and a real BackupDB; only do_http is a content-addressed stand-in.  Oracles after every backup: a directory cap
+    is re-used only for exactly the name->cap contents the directory has now; the snapshot equals the tree."""
     from allmydata.scripts import backupdb, tahoe_backup
     import datetime
-    n = ctx.n(8, 60)
-    saved_http = tahoe_backup.do_http
-    saved_time = backupdb.time
-    saved_random = backupdb.random
+    import shutil
+    if os.path.exists(root):
+        shutil.rmtree(root)
+    os.makedirs(root)
+    if os.path.exists(dbpath):
+        os.unlink(dbpath)
+    case = {"e2e_script": script, "order": order, "label": label}
+    saved = (tahoe_backup.do_http, backupdb.time, backupdb.random)
+    clock = _Clock()
+    clock.now = 3000000
+    rand = _Rand()
+    cap_content = {}        # filecap -> sha256 of the uploaded bytes
+    dir_children = {}       # dircap -> {name: cap}
+    http_log = []
+    failures = 0
+
+    def fake_http(method, url, body=b""):
+        if method == "PUT" and url.endswith("/uri"):
+            data = body.read() if hasattr(body, "read") else body
+            h = hashlib.sha256(data).digest()
+            cap = b"URI:CHK:" + h.hex()[:32].encode()
+            cap_content[cap] = h
+            http_log.append(("PUT", cap))
+            return _Resp(200, cap + b"\n")
+        if method == "POST" and "t=mkdir-immutable" in url:
+            kids = json.loads(body.decode("utf-8"))
+            children = {name: v[1]["ro_uri"].encode() if isinstance(v[1]["ro_uri"], str) else v[1]["ro_uri"] for name, v in kids.items()}
+            key = hashlib.sha256(repr(sorted(children.items())).encode()).hexdigest()[:32]
+            cap = b"URI:DIR2-CHK:" + key.encode()
+            dir_children[cap] = children
+            http_log.append(("MKDIR", cap))
+            return _Resp(200, cap)
+        if method == "POST" and "t=check" in url:
+            http_log.append(("CHECK", url))
+            return _Resp(200, json.dumps({"results": {"healthy": True}}).encode())
+        raise AssertionError("unexpected http %s %s" % (method, url))
+
+    listdir = {"sorted": lambda p: sorted(tahoe_backup.listdir_unicode(p)),
+               "reversed": lambda p: sorted(tahoe_backup.listdir_unicode(p), reverse=True),
+               "os": tahoe_backup.listdir_unicode}[order]
+    disk = {}
+    stat_seq = [10000]
+    run_no = 0
     try:
-        for i in range(n):
-            r = ctx.rng("e2e", i)
-            root = os.path.join(scratch, "tree-%d" % i)
-            os.makedirs(root)
-            dbpath = os.path.join(scratch, "e2e-%d.sqlite" % i)
-            clock = _Clock()
-            clock.now = 3000000
-            backupdb.time = clock
-            rand = _Rand()
-            backupdb.random = rand
-            cap_content = {}        # filecap -> sha256 of the uploaded bytes
-            dir_children = {}       # dircap -> {name: cap}
-            http_log = []
-
-            def fake_http(method, url, body=b""):
-                if method == "PUT" and url.endswith("/uri"):
-                    data = body.read() if hasattr(body, "read") else body
-                    h = hashlib.sha256(data).digest()
-                    cap = b"URI:CHK:" + h.hex()[:32].encode()
-                    cap_content[cap] = h
-                    http_log.append(("PUT", cap))
-                    return _Resp(200, cap + b"\n")
-                if method == "POST" and "t=mkdir-immutable" in url:
-                    kids = json.loads(body.decode("utf-8"))
-                    children = {name: v[1]["ro_uri"].encode() if isinstance(v[1]["ro_uri"], str) else v[1]["ro_uri"] for name, v in kids.items()}
-                    key = hashlib.sha256(repr(sorted(children.items())).encode()).hexdigest()[:32]
-                    cap = b"URI:DIR2-CHK:" + key.encode()
-                    dir_children[cap] = children
-                    http_log.append(("MKDIR", cap))
-                    return _Resp(200, cap)
-                if method == "POST" and "t=check" in url:
-                    http_log.append(("CHECK", url))
-                    return _Resp(200, json.dumps({"results": {"healthy": True}}).encode())
-                raise AssertionError("unexpected http %s %s" % (method, url))
-
-            tahoe_backup.do_http = fake_http
-            disk = {}               # relative path -> bytes (current content)
-            stat_seq = [10000]
-
-            def write(rel, data, keep_stat=False):
-                p = os.path.join(root, rel)
+        tahoe_backup.do_http = fake_http
+        backupdb.time = clock
+        backupdb.random = rand
+        for step_no, step in enumerate(script):
+            if "write" in step:
+                p = os.path.join(root, step["write"])
                 os.makedirs(os.path.dirname(p), exist_ok=True)
-                old = os.stat(p) if os.path.exists(p) else None
+                data = bytes.fromhex(step["data"])
                 open(p, "wb").write(data)
-                disk[rel] = data
-                if keep_stat and old is not None and old.st_size == len(data):
-                    os.utime(p, (old.st_mtime, old.st_mtime))
-                else:
-                    stat_seq[0] += 7
-                    os.utime(p, (stat_seq[0], stat_seq[0]))
+                disk[step["write"]] = data
+                stat_seq[0] += 7
+                os.utime(p, (stat_seq[0], stat_seq[0]))
+                continue
+            if "delete" in step:
+                os.unlink(os.path.join(root, step["delete"]))
+                del disk[step["delete"]]
+                prune_empty_dirs(root)
+                continue
+            if "rename" in step:
+                a, b = step["rename"]
+                os.makedirs(os.path.dirname(os.path.join(root, b)), exist_ok=True)
+                os.rename(os.path.join(root, a), os.path.join(root, b))
+                disk[b] = disk.pop(a)
+                prune_empty_dirs(root)
+                continue
+            bk = step["backup"]
+            clock.now += bk["dt"]
+            rand.rnd = bk["rnd"]
+            options = _Options({"ignore-timestamps": bk["ignore_ts"], "node-url": "http://127.0.0.1:1/", "verbose": False, "quiet": True})
+            options.stdout = io.StringIO()
+            options.stderr = io.StringIO()
+            bu = tahoe_backup.BackerUpper(options)
+            bu.verbosity = 0
+            bu.backupdb = backupdb.get_backupdb(dbpath, options.stderr)
+            bu.backupdb.connection.execute("PRAGMA synchronous=OFF")
+            here = dict(case, upto_step=step_no, run=run_no)
 
-            for j in range(r.choice([2, 4, 7])):
-                write(r.choice(["", "d1/", "d1/d2/", "d3/"]) + "f%d" % j, bytes(r.getrandbits(8) for _ in range(r.choice([0, 3, 40]))))
-            for run_no in range(r.choice([2, 3, 4])):
-                rand.rnd = r.choice(RNDS)
-                if run_no:
-                    clock.now += r.choice([60, DAY, MONTH + 5, 2 * MONTH + 5])
-                    for rel in sorted(disk):
-                        k = r.random()
-                        if k < 0.25:
-                            write(rel, disk[rel] + b"+")                      # grows
-                        elif k < 0.4:
-                            write(rel, bytes((b + 1) % 256 for b in disk[rel]))  # same size, new mtime
-                        elif k < 0.5:
-                            os.rename(os.path.join(root, rel), os.path.join(root, rel + "m"))
-                            disk[rel + "m"] = disk.pop(rel)
-                    if r.random() < 0.4:
-                        write("d1/new%d" % run_no, b"n" * run_no)
-                options = _Options({"ignore-timestamps": r.random() < 0.15, "node-url": "http://127.0.0.1:1/", "verbose": False, "quiet": True})
-                options.stdout = io.StringIO()
-                options.stderr = io.StringIO()
-                bu = tahoe_backup.BackerUpper(options)
-                bu.verbosity = 0
-                bu.backupdb = backupdb.get_backupdb(dbpath, options.stderr)
-                targets = list(tahoe_backup.collect_backup_targets(root, tahoe_backup.listdir_unicode, lambda ch: ch))
-                before = len(http_log)
-                completed = tahoe_backup.run_backup(warn=bu.warn, upload_file=bu.upload, upload_directory=bu.upload_directory,
-                                                    targets=targets, start_timestamp=datetime.datetime.now(), stdout=options.stdout)
-                bu.backupdb.connection.close()
-                # ---- oracle: the snapshot holds, for every file, a cap of its CURRENT content
-                snap = {}
+            def upload_directory(path, compare_contents, create_contents, bu=bu, here=here):
+                created, dircap = bu.upload_directory(path, compare_contents, create_contents)
+                if not created:
+                    now_contents = {name: v[1] for name, v in create_contents.items()}
+                    if dir_children.get(dircap) != now_contents:
+                        old = dir_children.get(dircap) or {}
+                        diff = sorted(n for n in set(old) | set(now_contents) if old.get(n) != now_contents.get(n))
+                        ctx.oracle_fail("e2e-dircap-reused-for-different-contents",
+                                        "%s run %d (%s listing): directory cap %r is re-used for %s although its name->cap contents differ in %r"
+                                        % (label, here["run"], order, dircap, os.path.relpath(path, root), diff), case=here,
+                                        expected={n: c.decode() for n, c in sorted(now_contents.items())},
+                                        observed={n: c.decode() for n, c in sorted(old.items())})
+                return created, dircap
 
-                def walk(dcap, prefix):
-                    for name, cap in dir_children[dcap].items():
-                        if cap in dir_children:
-                            walk(cap, prefix + name + "/")
-                        else:
-                            snap[prefix + name] = cap
-                if completed.dircap not in dir_children:
-                    ctx.oracle_fail("e2e-unknown-dircap", "run_backup returned a dircap that was never created: %r" % (completed.dircap,),
-                                    case={"e2e": i, "run": run_no})
-                    continue
+            targets = list(tahoe_backup.collect_backup_targets(root, listdir, lambda ch: ch))
+            before = len(http_log)
+            completed = tahoe_backup.run_backup(warn=bu.warn, upload_file=bu.upload, upload_directory=upload_directory,
+                                                targets=targets, start_timestamp=datetime.datetime.now(), stdout=options.stdout)
+            bu.backupdb.connection.close()
+            # ---- oracle: the snapshot holds exactly the tree, every file with a cap of its CURRENT content
+            snap = {}
+
+            def walk(dcap, prefix):
+                for name, cap in dir_children[dcap].items():
+                    if cap in dir_children:
+                        walk(cap, prefix + name + "/")
+                    else:
+                        snap[prefix + name] = cap
+            ok = True
+            if completed.dircap not in dir_children:
+                ok = False
+                ctx.oracle_fail("e2e-unknown-dircap", "run_backup returned a dircap that was never created: %r" % (completed.dircap,), case=here)
+            else:
                 walk(completed.dircap, "")
-                ok = True
                 if set(snap) != set(disk):
                     ok = False
-                    ctx.oracle_fail("e2e-snapshot-wrong-file-set", "snapshot lists %r, the tree holds %r" % (sorted(snap), sorted(disk)),
-                                    case={"e2e": i, "run": run_no}, expected=sorted(disk), observed=sorted(snap))
+                    ctx.oracle_fail("e2e-snapshot-wrong-file-set", "%s run %d (%s listing): snapshot lists %r, the tree holds %r"
+                                    % (label, run_no, order, sorted(snap), sorted(disk)), case=here, expected=sorted(disk), observed=sorted(snap))
                 for rel, cap in sorted(snap.items()):
                     want = hashlib.sha256(disk.get(rel, b"?")).digest()
-                    if cap_content.get(cap) != want:
+                    if rel in disk and cap_content.get(cap) != want:
                         ok = False
                         ctx.oracle_fail("e2e-stale-cap-in-snapshot",
-                                        "backup run %d of tree %d reuses cap %r for %s whose content has changed since that upload"
-                                        % (run_no, i, cap, rel), case={"e2e": i, "run": run_no, "file": rel},
+                                        "%s run %d (%s listing): the snapshot holds cap %r for %s, which is not the cap of the file's current content"
+                                        % (label, run_no, order, cap, rel), case=dict(here, file=rel),
                                         expected="cap of the current content", observed=cap.decode())
-                reused = completed._files_reused
-                ctx.case(("e2e", i, run_no, tuple(sorted(snap.items()))) if reused and completed._files_created else None, kind="e2e-run")
-                ctx.count("e2e:files-reused", reused)
-                ctx.count("e2e:files-uploaded", completed._files_created)
-                ctx.count("e2e:dirs-reused", completed._directories_reused)
-                ctx.count("e2e:http-calls", len(http_log) - before)
-                if ok:
-                    ctx.trace(1)
+            reused = completed._files_reused
+            ctx.case(("e2e", order, json.dumps(script[:step_no + 1], sort_keys=True)) if reused and completed._files_created else None, kind="e2e-run")
+            ctx.count("e2e:files-reused", reused)
+            ctx.count("e2e:files-uploaded", completed._files_created)
+            ctx.count("e2e:dirs-reused", completed._directories_reused)
+            ctx.count("e2e:dirs-created", completed._directories_created)
+            ctx.count("e2e:http-calls", len(http_log) - before)
+            if ok:
+                ctx.trace(1)
+            else:
+                failures += 1
+            run_no += 1
     finally:
-        tahoe_backup.do_http = saved_http
-        backupdb.time = saved_time
-        backupdb.random = saved_random
+        tahoe_backup.do_http, backupdb.time, backupdb.random = saved
+    return failures
+
+
+def prune_empty_dirs(root):
+    for d, subdirs, files in os.walk(root, topdown=False):
+        if d != root and not os.listdir(d):
+            os.rmdir(d)
+
+
+def end_to_end(ctx, scratch):
+    scripts = [("story", e2e_story())]
+    for i in range(ctx.n(5, 40)):
+        scripts.append(("tree-%d" % i, e2e_random_script(ctx.rng("e2e", i))))
+    for j, (label, script) in enumerate(scripts):
+        for order in ("sorted", "reversed", "os"):
+            run_e2e_script(ctx, script, order, os.path.join(scratch, "tree-%d-%s" % (j, order)),
+                           os.path.join(scratch, "e2e-%d-%s.sqlite" % (j, order)), label)
 
 
 # =============================================================================
@@ -1011,9 +1118,14 @@ def end_to_end(ctx, scratch):
 def replay(ctx, rec):
     case = rec.get("case") or {}
     hist = case.get("history")
-    if not hist:
-        return {"note": "no explicit history in this record (end-to-end cases are re-run by the seeded generator)"}
     scratch = env.subdir("c42-replay")
+    if case.get("e2e_script"):
+        script = case["e2e_script"][:case.get("upto_step", len(case["e2e_script"])) + 1]
+        n = run_e2e_script(ctx, script, case.get("order", "sorted"), os.path.join(scratch, "tree"), os.path.join(scratch, "e2e.sqlite"),
+                           case.get("label", "replay"))
+        return {"steps": len(script), "order": case.get("order"), "backup_runs_with_oracle_failures": n}
+    if not hist:
+        return {"note": "record holds neither a history nor an end-to-end script"}
     s = Session(ctx, os.path.join(scratch, "replay.sqlite"), scripted=True,
                 v1_first=bool(hist and hist[0].get("op") == "created_as_v1"))
     try:
